@@ -417,6 +417,15 @@ def case_hist(hist):
             retained.append(("receiver-of-%s" % name, obj, model))
         if name == "copy":
             obj = C(obj)
+        elif name in ("shallow-copy", "deep-copy"):
+            import copy as _copy
+            obj = _copy.copy(obj) if name == "shallow-copy" else _copy.deepcopy(obj)
+            if name == "shallow-copy":
+                # Python semantics of copy.copy allow the copy to share arrays with the original: what happens to the
+                # copy later may legitimately show in the original too.  The original is therefore no longer compared
+                # with its model, but it must stay COHERENT (derived data = recomputation from its own primary data)
+                role, o_, m_ = retained[-1]
+                retained[-1] = ("aliased-" + role, o_, None)
         elif name == "apply":
             T, R = make_T(cls, op[1])
             obj, model = T @ obj, model @ R
@@ -485,6 +494,8 @@ def case_hist(hist):
     if not v:
         # objects left behind by the history must still be coherent (shared arrays!)
         for role, o, m in retained:
+            if m is None:
+                m = np.array(o.proj_data)            # aliased original: coherence with its own current primary data only
             for x in check_state(cls, o, m, last):
                 x["key"] = "retained/%s/" % role + x["key"]
                 x["msg"] = "%s, after the later op %r: %s" % (role, last, x["msg"])
@@ -500,6 +511,7 @@ def case_hist(hist):
     if not v:
         N = S.size(mshape)
         nextops.append(["copy"])
+        nextops += [["shallow-copy"], ["deep-copy"]]
         nextops += [["apply", 0], ["apply", 1]]
         if S.broadcast_shape(mshape, (2,)) is not None and N <= 8:
             nextops.append(["apply-composite"])
@@ -526,7 +538,8 @@ def case_hist(hist):
     # the queries may leave hidden state behind (memoised answers), which no observable summary shows: a state
     # reached after a query is therefore never merged with one reached without
     queried = any(op[0] == "queries" for op in ops)
-    key = repr((cls, tuple(mshape), cx, queried, canon_rows(model, 5), None if raw is None else hashlib.sha1(raw.tobytes()).hexdigest()[:12]))
+    aliased = any(op[0] == "shallow-copy" for op in ops)        # another object may share this one's arrays
+    key = repr((cls, tuple(mshape), cx, queried, aliased, canon_rows(model, 5), None if raw is None else hashlib.sha1(raw.tobytes()).hexdigest()[:12]))
     return {"v": v, "t": t, "o": repr((cls, tuple(mshape), last, cx)), "nt": len(ops) > 0, "key": key, "ops": nextops}
 
 
